@@ -24,3 +24,30 @@ Proof.
 Qed.
 Example ex_chain_lex : lex (render true st0 ex_chain) = Some (toks ex_chain).
 Proof. apply RenderLex.render_lex_all; apply ex_chain_ok. Qed.
+
+(* identifiers ending in a \u{...} escape (fix 6d63f64): the hypotheses of render_lex hold and
+   the word that follows is separated *)
+Definition ex_esc_chain : list item :=
+  [IId (zs "a\u{10000}"); IOp BIn; IId (zs "x"); IOp BInstanceof; IOp UTypeof; IId (zs "b\u{1F600}"); IOp UPostInc; IOp BAdd; IId (zs "c")].
+Example ex_esc_render : render true st0 ex_esc_chain = zs "a\u{10000} in x instanceof typeof b\u{1F600}+++c".
+Proof. vm_compute. reflexivity. Qed.
+Lemma ex_esc_word pre hex : id_shape pre -> hex <> [] -> forallb hexd hex = true ->
+  regex_after_word (pre ++ esc_seq hex) = false -> item_ok (IId (pre ++ esc_seq hex)).
+Proof. intros H1 H2 H3 H4. split; [right; exists pre, hex; split; [reflexivity | split; [exact H1 | split; [exact H2 | exact H3]]] | exact H4]. Qed.
+Lemma ex_plain_word s : id_shape s -> regex_after_word s = false -> item_ok (IId s).
+Proof. intros H1 H2. split; [left; exact H1 | exact H2]. Qed.
+Example ex_esc_ok : Forall item_ok ex_esc_chain /\ chain None ex_esc_chain = true.
+Proof.
+  split; [|vm_compute; reflexivity].
+  unfold ex_esc_chain.
+  constructor; [apply (ex_esc_word (zs "a") (zs "10000")); repeat split; try discriminate; vm_compute; reflexivity|].
+  constructor; [exact I|].
+  constructor; [apply ex_plain_word; repeat split; try discriminate; vm_compute; reflexivity|].
+  constructor; [exact I|]. constructor; [exact I|].
+  constructor; [apply (ex_esc_word (zs "b") (zs "1F600")); repeat split; try discriminate; vm_compute; reflexivity|].
+  constructor; [exact I|]. constructor; [exact I|].
+  constructor; [apply ex_plain_word; repeat split; try discriminate; vm_compute; reflexivity|].
+  constructor.
+Qed.
+Example ex_esc_lex : lex (render true st0 ex_esc_chain) = Some (toks ex_esc_chain).
+Proof. apply RenderLex.render_lex_all; apply ex_esc_ok. Qed.
